@@ -111,8 +111,12 @@ class MarkerExpression(SingleMarker):
             pkg_spec = next(iter(specifier.to_specifierset()))
             pkg_version = pkg_spec.version
             if (
-                dot_num := pkg_version.count(".")
-            ) < 2 and name == "python_full_version":
+                (dot_num := pkg_version.count(".")) < 2
+                and name == "python_full_version"
+                # padding would change the meaning of ~=X.Y and corrupt X.*
+                and pkg_spec.operator != "~="
+                and not pkg_version.endswith(".*")
+            ):
                 for _ in range(2 - dot_num):
                     pkg_version += ".0"
             return MarkerExpression(
